@@ -262,8 +262,8 @@ func resolveBound(fn *Func, x ast.Expr) (*Func, ast.Expr) {
 		moved := false
 		for f := fn; f != nil; f = f.Outer {
 			if k := paramIndex(f, vr); k >= 0 {
-				if f.bind != nil && f.bind.call != nil && k < len(f.bind.call.Args) {
-					fn, x, moved = f.bind.caller, f.bind.call.Args[k], true
+				if f.bind != nil && f.bind.call != nil && k < len(f.bind.argv()) {
+					fn, x, moved = f.bind.caller, f.bind.argv()[k], true
 				}
 				break
 			}
